@@ -23,9 +23,9 @@ _PROBS = {}
 def cases(ctx):
     for fam in ("DTLZI", "DTLZII", "DTLZIII", "DTLZIV"):
         for m in range(2, 7):
-            for rep in range(ctx.pick(20, 600)):
+            for rep in range(ctx.pick(20, 3600)):
                 yield "dtlz", {"family": fam, "m": m, "seed": ctx.subseed(fam, m, rep), "points": ctx.pick(150, 400)}
-    for rep in range(ctx.pick(40, 1600)):
+    for rep in range(ctx.pick(40, 9600)):
         yield "zdt1", {"seed": ctx.subseed("z", rep), "points": ctx.pick(300, 600)}
         yield "biobj", {"seed": ctx.subseed("b", rep), "points": ctx.pick(300, 600)}
 
